@@ -81,7 +81,7 @@ def parses_while_another_thread_declares(ctx, env, attempt):
             ctx.violation(f"C17:{label}:outcome-differs-while-another-thread-declares", f"{label}({t!r}) gave {got} while another thread was declaring units ({how}); alone it gives {want}", case)
 
     # (a) deterministic scheduler, every line everywhere
-    for k in range(16 if ctx.tier == "quick" else 400):
+    for k in range(16 if ctx.tier == "quick" else 60):
         t = rng.choice(unknown) if k % 4 else rng.choice(known)
         label, fn = rng.choice([("Unit.parse", Unit.parse), ("Quantity.parse", Quantity.parse)])
         run = sched.Run([lambda: attempt(fn, t), declare_some(2)], None, sched.EVERYWHERE, rng=rng, switch_prob=rng.choice([0.02, 0.1, 0.3])).go(timeout=60)
@@ -113,7 +113,7 @@ def parses_while_another_thread_declares(ctx, env, attempt):
     th = threading.Thread(target=declarer, daemon=True)
     th.start()
     try:
-        for k in range(400 if ctx.tier == "quick" else 20000):
+        for k in range(400 if ctx.tier == "quick" else 6000):
             t = rng.choice(texts)
             label, fn = rng.choice([("Unit.parse", Unit.parse), ("Quantity.parse", Quantity.parse)])
             judge(label, t, attempt(fn, t), "free-running", {"text": t})
